@@ -107,6 +107,14 @@ func init() {
 				{File: f, Old: "func (t *Table) lookupUnlocked(ip net.IP) *Route {\n\tvar bestRoute *Route\n", New: "func (t *Table) lookupUnlocked(ip net.IP) *Route {\n\tif ip == nil || len(t.routes) == 0 {\n\t\treturn nil\n\t}\n\tvar bestRoute *Route\n"},
 				{File: f, Old: "func (t *Table) Lookup(ip net.IP) *Route {\n\tt.mu.RLock()", New: "func (t *Table) Lookup(ip net.IP) *Route {\n\tif len(ip) == 0 {\n\t\treturn nil\n\t}\n\tt.mu.RLock()"},
 			}},
+			{Name: "round3 rewrite: replace decision extracted into a switch-form predicate helper", Edits: []Edit{
+				{File: f, Old: "\t\tif ones > bestPrefixLen ||\n\t\t\t(ones == bestPrefixLen && first.Metric < bestRoute.Metric) {\n", New: "\t\tif betterCandidate(ones, bestPrefixLen, first, bestRoute) {\n"},
+				{File: f, Old: "// lookupUnlocked performs lookup without locking (caller must hold lock).\nfunc (t *Table) lookupUnlocked", New: "func betterCandidate(ones, bestLen int, cand, best *Route) bool {\n\tswitch {\n\tcase ones > bestLen:\n\t\treturn true\n\tcase ones < bestLen:\n\t\treturn false\n\t}\n\treturn best != nil && cand.Metric < best.Metric\n}\n\n// lookupUnlocked performs lookup without locking (caller must hold lock).\nfunc (t *Table) lookupUnlocked"},
+			}},
+			{Name: "round3: extracted replace predicate accepts an equal prefix length", ExpectRule: "C08.R3", ExpectKey: "replace table", Edits: []Edit{
+				{File: f, Old: "\t\tif ones > bestPrefixLen ||\n\t\t\t(ones == bestPrefixLen && first.Metric < bestRoute.Metric) {\n", New: "\t\tif betterCandidate(ones, bestPrefixLen, first, bestRoute) {\n"},
+				{File: f, Old: "// lookupUnlocked performs lookup without locking (caller must hold lock).\nfunc (t *Table) lookupUnlocked", New: "func betterCandidate(ones, bestLen int, cand, best *Route) bool {\n\tswitch {\n\tcase ones >= bestLen:\n\t\treturn true\n\tcase ones < bestLen:\n\t\treturn false\n\t}\n\treturn best != nil && cand.Metric < best.Metric\n}\n\n// lookupUnlocked performs lookup without locking (caller must hold lock).\nfunc (t *Table) lookupUnlocked"},
+			}},
 			// behaviour-preserving rewrites
 			{Name: "rewrite: operands swapped and !(a<=b)", Edits: []Edit{
 				{File: f, Old: "\t\tif ones > bestPrefixLen ||\n\t\t\t(ones == bestPrefixLen && first.Metric < bestRoute.Metric) {", New: "\t\tif !(ones <= bestPrefixLen) ||\n\t\t\t(bestPrefixLen == ones && bestRoute.Metric > first.Metric) {"},
@@ -232,7 +240,7 @@ func runC08(p *kit.Program, r *kit.Report) {
 			c := c08ReturnedCall(fn)
 			ok := c != nil && kit.CalleeOf(c).Static == entry && len(fn.Params) == 2 && len(c.Call.Args) == 2 && c.Call.Args[1] == ssa.Value(fn.Params[1])
 			if ok {
-				f, base := kit.LoadedField(c.Call.Args[0])
+				f, base := c08Field(c.Call.Args[0])
 				ok = f != nil && base == ssa.Value(fn.Params[0])
 			}
 			r.Decide(ok, "C08.R4", kit.FuncName(fn)+" returns the table lookup", p.Pos(fn.Pos()),
@@ -252,7 +260,7 @@ func (m *c08Model) rangeOverBuckets(fn *ssa.Function, tbl *c08Table) *ssa.Range 
 		if !ok || c08RouteOfMap(rg.X.Type()) != tbl.route {
 			return
 		}
-		if f, base := kit.LoadedField(rg.X); f != nil && len(fn.Params) > 0 && base == ssa.Value(fn.Params[0]) {
+		if f, base := c08Field(rg.X); f != nil && len(fn.Params) > 0 && base == ssa.Value(fn.Params[0]) {
 			out = rg
 		}
 	})
@@ -316,7 +324,12 @@ func (m *c08Model) checkScan(r *kit.Report, tbl *c08Table, fn *ssa.Function) {
 		b := m.bucketOf(s)
 		return b != nil && b.next == next
 	}
+	// while a predicate helper of the package is being evaluated, its parameters stand for the
+	// caller's arguments
+	var curSub c08Sub
+	tr := func(v ssa.Value) ssa.Value { return c08Subst(c08Resolve(kit.Unwrap(v)), curSub) }
 	isCand := func(v ssa.Value) (*ssa.IndexAddr, bool) { // element of this iteration's bucket
+		v = tr(v)
 		u, ok := v.(*ssa.UnOp)
 		if !ok || u.Op != token.MUL {
 			return nil, false
@@ -328,6 +341,7 @@ func (m *c08Model) checkScan(r *kit.Report, tbl *c08Table, fn *ssa.Function) {
 		return ia, true
 	}
 	onesSide := func(v ssa.Value) string { // "cand" | "best" | ""
+		v = tr(v)
 		if v == ssa.Value(bestLen) && bestLen != nil {
 			return "best"
 		}
@@ -335,21 +349,21 @@ func (m *c08Model) checkScan(r *kit.Report, tbl *c08Table, fn *ssa.Function) {
 			if _, ok := isCand(base); ok {
 				return "cand"
 			}
-			if base == ssa.Value(best) {
+			if tr(base) == ssa.Value(best) {
 				return "best"
 			}
 		}
 		return ""
 	}
 	metricSide := func(v ssa.Value) string {
-		f, base := kit.LoadedField(kit.Unwrap(v))
+		f, base := c08Field(tr(v))
 		if f == nil || f != tbl.rf["Metric"] {
 			return ""
 		}
 		if _, ok := isCand(base); ok {
 			return "cand"
 		}
-		if base == ssa.Value(best) {
+		if tr(base) == ssa.Value(best) {
 			return "best"
 		}
 		return ""
@@ -381,7 +395,7 @@ func (m *c08Model) checkScan(r *kit.Report, tbl *c08Table, fn *ssa.Function) {
 		if !(cal.Pkg == "net" && cal.Recv == "IPNet" && cal.Name == "Contains") || len(c.Call.Args) != 2 {
 			return nil, false
 		}
-		f, base := kit.LoadedField(c.Call.Args[0])
+		f, base := c08Field(c.Call.Args[0])
 		_, candOK := isCand(base)
 		return c, f != nil && f.Name() == "Network" && candOK && ipDerived(c.Call.Args[1])
 	}
@@ -393,11 +407,24 @@ func (m *c08Model) checkScan(r *kit.Report, tbl *c08Table, fn *ssa.Function) {
 		ordMet   kit.Ordering
 	}
 	badContains := ""
-	mkAtom := func(s scen, metKnown bool) kit.AtomEval {
+	var mkAtom func(s scen, metKnown bool) kit.AtomEval
+	predDepth := 0
+	mkAtom = func(s scen, metKnown bool) kit.AtomEval {
 		return func(c ssa.Value) (bool, bool) {
 			if u, ok := c.(*ssa.UnOp); ok && u.Op == token.MUL {
 				if cv, ok := c08CellValue(u); ok {
 					c = cv
+				}
+			}
+			if predDepth < 2 {
+				if g, sub2, ok := c08PredCall(c, curSub); ok {
+					save := curSub
+					curSub = sub2
+					predDepth++
+					v, known := c08EvalPred(g, mkAtom(s, metKnown))
+					predDepth--
+					curSub = save
+					return v, known
 				}
 			}
 			if call, wf := isContains(c); call != nil {
@@ -436,7 +463,7 @@ func (m *c08Model) checkScan(r *kit.Report, tbl *c08Table, fn *ssa.Function) {
 				}
 				if other != nil {
 					isNil := false
-					if other == ssa.Value(best) {
+					if tr(other) == ssa.Value(best) {
 						isNil = s.bestNil
 					}
 					return isNil == (b.Op == token.EQL), true
@@ -671,11 +698,11 @@ func (m *c08Model) isOnes(v ssa.Value) ssa.Value {
 	if !(cal.Pkg == "net" && cal.Recv == "IPMask" && cal.Name == "Size") || len(c.Call.Args) != 1 {
 		return nil
 	}
-	f, base := kit.LoadedField(c.Call.Args[0])
+	f, base := c08Field(c.Call.Args[0])
 	if f == nil || f.Name() != "Mask" {
 		return nil
 	}
-	f2, base2 := kit.LoadedField(base)
+	f2, base2 := c08Field(base)
 	if f2 == nil || f2.Name() != "Network" {
 		return nil
 	}
@@ -1482,7 +1509,7 @@ func (m *c08Model) sortSitesIn(fn *ssa.Function) []c08SortSite {
 // cmpSide classifies v as the metric of compared element 0 or 1 of sort s (-1: neither).
 func (m *c08Model) cmpSide(s *c08Sort, v ssa.Value) int {
 	v = kit.Unwrap(v)
-	f, base := kit.LoadedField(v)
+	f, base := c08Field(v)
 	if f == nil || f != s.tbl.rf["Metric"] {
 		return -1
 	}
@@ -1815,6 +1842,28 @@ func c08InPath(path []*ssa.BasicBlock, in ssa.Instruction, excludeLast bool) boo
 	return false
 }
 
+// c08Resolve looks through loads of local cells that are stored exactly once (parameters and
+// locals captured by a closure are lowered to such cells).
+func c08Resolve(v ssa.Value) ssa.Value {
+	for i := 0; i < 6 && v != nil; i++ {
+		cv, ok := c08CellValue(v)
+		if !ok {
+			break
+		}
+		v = cv
+	}
+	return v
+}
+
+// c08Field is kit.LoadedField with the loaded value and the base resolved through cells.
+func c08Field(v ssa.Value) (*types.Var, ssa.Value) {
+	f, base := kit.LoadedField(c08Resolve(v))
+	if f != nil {
+		base = c08Resolve(base)
+	}
+	return f, base
+}
+
 // c08Subst maps a callee parameter to the caller's value under substitution sub.
 func c08Subst(v ssa.Value, sub c08Sub) ssa.Value {
 	if prm, ok := v.(*ssa.Parameter); ok {
@@ -1916,7 +1965,7 @@ func c08TrivialNilReturn(fn *ssa.Function, ret *ssa.Return) bool {
 		if _, isPrm := v.(*ssa.Parameter); isPrm {
 			return false, true
 		}
-		if f, base := kit.LoadedField(v); f != nil && c08RouteOfMap(f.Type()) != nil && len(fn.Params) > 0 && base == ssa.Value(fn.Params[0]) {
+		if f, base := c08Field(v); f != nil && c08RouteOfMap(f.Type()) != nil && len(fn.Params) > 0 && base == ssa.Value(fn.Params[0]) {
 			return true, true
 		}
 		return false, false
